@@ -69,6 +69,21 @@ func (m *Meth) Ptr() string               { return "ptr:" + m.V }
 func (m Meth) Arg(i int) string           { return fmt.Sprintf("arg%d:%s", i, m.V) }
 func (m Meth) Two(a string, b int) string { return fmt.Sprintf("two:%s:%d:%s", a, b, m.V) }
 
+// non-empty interface types in between
+type Shaper interface{ Label() string }
+
+type Box struct {
+	W, H int
+	Name string
+	Tags []string
+}
+
+func (b Box) Label() string { return "box:" + b.Name }
+
+type PBox struct{ ID string }
+
+func (p *PBox) Label() string { return "pbox:" + p.ID }
+
 type Root struct {
 	S string
 	I int
@@ -100,6 +115,14 @@ type Root struct {
 	NilMap   map[string]string
 	Nested   map[string]interface{}
 	MapAny   map[interface{}]string
+	MapPair  map[[2]interface{}]string
+
+	Shape    Shaper // holds a Box value
+	ShapeP   Shaper // holds a *PBox
+	ShapeNil Shaper
+	ShapeMap map[string]Shaper
+	Shapes   []Shaper
+	Err      error // nil error interface
 
 	Strs    []string
 	Ints    []int
@@ -162,6 +185,11 @@ func (g *Gen) Root() *Root {
 		"s":    g.Tok(),
 	}
 	r.MapAny = map[interface{}]string{"a": g.Tok(), 1.0: g.Tok(), true: g.Tok()}
+	r.MapPair = map[[2]interface{}]string{{"a", 1}: g.Tok()}
+	r.Shape = Box{W: 3, H: 4, Name: g.Tok(), Tags: []string{g.Tok(), g.Tok()}}
+	r.ShapeP = &PBox{ID: g.Tok()}
+	r.ShapeMap = map[string]Shaper{"b": Box{W: 5, H: 6, Name: g.Tok(), Tags: []string{g.Tok()}}, "p": &PBox{ID: g.Tok()}}
+	r.Shapes = []Shaper{Box{W: 7, H: 8, Name: g.Tok()}, &PBox{ID: g.Tok()}}
 	r.Strs = []string{g.Tok(), g.Tok(), g.Tok()}
 	r.Ints = []int{10, 0, 30}
 	r.Ifaces = []interface{}{g.Tok(), 0, "", nil, g.inner()}
@@ -301,7 +329,10 @@ func deref(v reflect.Value) (reflect.Value, bool) {
 }
 
 // Vars gives the values of the VarRefs.
-var Vars = map[VarRef]interface{}{"ix0": 0, "ix1": 1, "ix2": 2, "ix3": 3, "ixm1": -1, "ix9": 9, "kk1": "k1", "kabsent": "absent", "knamed": Key("nk"), "i64one": int64(1), "u8one": uint8(1), "izero": 0, "kslice": []int{1}, "kstruct": struct{ S []string }{[]string{"x"}}}
+var Vars = map[VarRef]interface{}{"ix0": 0, "ix1": 1, "ix2": 2, "ix3": 3, "ixm1": -1, "ix9": 9, "kk1": "k1", "kabsent": "absent", "knamed": Key("nk"), "i64one": int64(1), "u8one": uint8(1), "izero": 0, "kslice": []int{1}, "kstruct": struct{ S []string }{[]string{"x"}},
+	// comparable by static type, unhashable by dynamic value
+	"kdyn":  struct{ ID interface{} }{[]int{7}},
+	"kpair": [2]interface{}{"a", map[string]int{"z": 1}}}
 
 func indexValue(x interface{}) reflect.Value {
 	if c, ok := x.(Computed); ok {
